@@ -99,6 +99,18 @@ End Eval.
 Definition eval : expr -> ares := eval_with arith neg.
 Definition eval_pre (m : mode) : expr -> ares := eval_with (arith_pre m) (neg_pre m).
 
+(** ** integer SUM aggregate: aggregate.rs [AggregateState::SumInt] / [SumIntDistinct] do
+    [*sum += v] with the plain operator on [i64], in the order the rows arrive *)
+Fixpoint sum_int (m : mode) (acc : Z) (vs : list Z) : res Z :=
+  match vs with
+  | [] => Ok acc
+  | v :: r => rbind (add_i64 m acc v) (fun a => sum_int m a r)
+  end.
+Fixpoint zsum (vs : list Z) : Z := match vs with [] => 0 | v :: r => v + zsum r end.
+(** every partial sum, in arrival order, fits in an [i64] *)
+Fixpoint prefixes_fit (acc : Z) (vs : list Z) : Prop :=
+  match vs with [] => True | v :: r => in_i64 (acc + v) /\ prefixes_fit (acc + v) r end.
+
 (** ** index and slice arithmetic ([IndexAccess], [SliceAccess]) *)
 
 (** [x as usize] for an [i64] x: two's-complement reinterpretation *)
